@@ -1,6 +1,6 @@
 """C01 — cross-format value fidelity (structural necessary conditions), and C06's single clause."""
 from engine import rule, AnchorLost
-from model import Super, fn_of, trace, strace, is_place, site
+from model import Super, PathSens, fn_of, trace, strace, is_place, site
 import common
 
 SCALARS = ["unit", "bool", "i8", "i16", "i32", "i64", "i128", "u8", "u16", "u32", "u64", "u128", "f32", "f64", "char", "str", "bytes"]
@@ -268,46 +268,56 @@ def r01_4(ctx):
     expect = {"next_element_seed": ("serde::ser::SerializeSeq", "serialize_element"), "next_key_seed": ("serde::ser::SerializeMap", "serialize_key"), "next_value_seed": ("serde::ser::SerializeMap", "serialize_value")}
     seed_impls = [i for i in lib.impls if i.get("trait") == "serde::de::DeserializeSeed"]
     found = {}
+    sups = {}
     for mname in ("visit_seq", "visit_map"):
         b = vis_bodies[mname]
-        for bb, t in b.calls():
+        # the method with its same-crate helpers inlined (the element loop may live in a helper)
+        vsup = sups[mname] = Super(lib, b, depth=3)
+        for nn, nb, t in vsup.calls():
             f = fn_of(t) or {}
             if f.get("name") in expect:
                 seed_ty = f["args"][-1] if f.get("args") else ""
                 imp = [i for i in seed_impls if i["self_ty"].split("<")[0] == seed_ty.split("<")[0]]
                 if len(imp) != 1:
-                    ctx.ob(f"pair:{f['name']}", False, site(b, bb), f"cannot resolve seed type {seed_ty}")
+                    ctx.ob(f"pair:{f['name']}", False, vsup.site(nn), f"cannot resolve seed type {seed_ty}")
                     continue
                 db = lib.by_id[[it for it in imp[0]["items"] if it["name"] == "deserialize"][0]["def"]]
                 sup = Super(lib, db, depth=3)
                 coll = [(fn_of(tt).get("trait"), fn_of(tt)["name"]) for _, _, tt in sup.calls() if (fn_of(tt) or {}).get("trait") in ("serde::ser::SerializeSeq", "serde::ser::SerializeMap")]
                 ok = coll == [expect[f["name"]]]
-                found[f["name"]] = bb
+                found[f["name"]] = nn
                 ctx.ob(f"pair:{f['name']}", ok, site(db), f"{f['name']} -> seed {imp[0]['self_ty'].split('<')[0]} -> {coll}")
-                ctx.ob(f"loop:{f['name']}:on-cycle", b.on_cycle(bb), site(b, bb), "called once per element inside the loop")
+                ctx.ob(f"loop:{f['name']}:on-cycle", vsup.on_cycle(nn), vsup.site(nn), "called once per element inside the loop")
     for k in expect:
         if k not in found:
             ctx.ob(f"pair:{k}", False, module_file, f"no {k} call in the visitor")
     vm = vis_bodies["visit_map"]
     if "next_key_seed" in found and "next_value_seed" in found:
-        ok = vm.dominates(found["next_key_seed"], found["next_value_seed"]) and found["next_key_seed"] != found["next_value_seed"]
-        ctx.ob("map:key-before-value", ok, site(vm, found["next_value_seed"]), "every value is preceded by its key" if ok else "a value can be forwarded before its key")
+        msup = sups["visit_map"]
+        ok = msup.dominates(found["next_key_seed"], found["next_value_seed"]) and found["next_key_seed"] != found["next_value_seed"]
+        ctx.ob("map:key-before-value", ok, msup.site(found["next_value_seed"]), "every value is preceded by its key" if ok else "a value can be forwarded before its key")
     for mname, tr_name, first in (("visit_seq", "serde::ser::SerializeSeq", "next_element_seed"), ("visit_map", "serde::ser::SerializeMap", "next_key_seed")):
         b = vis_bodies[mname]
-        ends = [(bb, t) for bb, t in b.calls() if (fn_of(t) or {}).get("trait") == tr_name and fn_of(t)["name"] == "end"]
-        ok = len(ends) == 1 and not b.on_cycle(ends[0][0]) and first in found and b.dominates(found[first], ends[0][0])
-        # every Ok return passes through end()
+        vsup = sups[mname]
+        ends = [nn for nn, _, t in vsup.calls() if (fn_of(t) or {}).get("trait") == tr_name and fn_of(t)["name"] == "end"]
+        ok = len(ends) == 1 and not vsup.on_cycle(ends[0]) and first in found and vsup.dominates(found[first], ends[0])
+        det = "end() missing, repeated or in a loop"
         if ok:
-            okret = True
-            for rb in b.return_blocks():
-                pass
-            for bi in b.reach():
-                for s in b.blocks[bi]["stmts"]:
-                    if s["k"] == "assign" and s["p"]["l"] == 0 and s["rv"]["k"] == "aggregate" and s["rv"].get("variant") == "Ok":
-                        if not b.dominates(ends[0][0], bi):
-                            okret = False
-            ok = okret
-        ctx.ob(f"{mname}:end-after-loop", ok, site(b), "collection is closed exactly once after the loop, before Ok is returned" if ok else "end() missing, repeated or skipped on a success path")
+            # a return that did not pass through end() carries Err (variant-aware exploration with end() removed)
+            ps = PathSens(vsup)
+            reached = ps.explore([(vsup.entry, {})], removed_nodes=ends)
+            for rn in vsup.exits():
+                for st in reached.get(rn, []):
+                    f_end = dict(st)
+                    for s_ in b.blocks[rn[1]]["stmts"]:
+                        ps._stmt(f_end, (), s_)
+                    if f_end.get(((), 0)) != ("var", 1):
+                        ok = False
+                        det = "a path returns without closing the collection and is not known to return Err"
+            if ps.overflow:
+                ok = False
+                det = "state space overflow"
+        ctx.ob(f"{mname}:end-after-loop", ok, site(b), "collection is closed exactly once after the loop, before Ok is returned" if ok else det)
 
 
 def _features(ctx, krate):
